@@ -10,7 +10,8 @@ EXPLANATION = (
     "word as max(n_word, max bit length of |code| + sign bit + n) (the exact spelling ceil(log2(|c|+0.5)) is part of the term); R3 no attribute of the operand is written; "
     "the result object is a constructor result or self.deepcopy(). DECLINED: that the right-expansion amount n - min_pow2(val) is large enough for losslessness "
     "(min_pow2 is a loop over the data)."
-    ' Added after the third round of seeded changes: codes produced by a shift reach the buffer through set_val or the in-place >> only (C02.R1); shifting= keywords reach the final configuration (C20.R2).')
+    ' Added after the third round of seeded changes: codes produced by a shift reach the buffer through set_val or the in-place >> only (C02.R1); shifting= keywords reach the final configuration (C20.R2).'
+    ' Added after the fourth round of seeded changes: C20.R8 objects carry only the documented attributes and no function writes module-level containers (no caches / memos that go stale).')
 ASSUMPTIONS = ["|c >> n| <= |c| and c >> n == floor(c / 2^n) (sign-filling) for Python ints and int64", "c << n == c * 2^n below the carrier's capacity"]
 TRUSTED = ["CPython ast", "fxlint term normaliser"]
 
